@@ -46,6 +46,22 @@ Theorem C05_only_configured_names_are_dereferenced : forall c fuel root n s n' s
 Proof. exact op_visit_only_configured. Qed.
 Print Assumptions C05_only_configured_names_are_dereferenced.
 
+(** The same for the rewriter's result.  For every Script / Module of that fragment accepted by [rewrite], under every
+    configuration whose own prologue does not dereference the namespace with another name (the real prologue does not
+    dereference it at all: evaluated on every run): every member expression on the hook namespace in the tree handed
+    to the printer -- prologue, nested blocks and functions included -- is [_ddiast.<name>] with a configured [name]. *)
+From IastRw Require Import P_NamesProgram.
+Theorem C05_rewrite_only_configured_names : forall c file k lo hi body interp ast t,
+  (k = KScript \/ k = KModule) ->
+  wf_all (Node (K k lo hi) [Node Lst body; interp]) = true /\ ns_count (Node (K k lo hi) [Node Lst body; interp]) = 0 ->
+  badname_list (configured c) (c_prefix_stmts c) = 0 ->
+  rewrite c file (Node (K k lo hi) [Node Lst body; interp]) = OutOk ast t ->
+  Forall (fun m => exists mlo mhi obj prop name,
+            m = Node (K KMember mlo mhi) [obj; prop] /\ ident_name_sym prop = Some name /\
+            In name (configured_dsts c)) (ns_members ast).
+Proof. exact rewrite_only_configured. Qed.
+Print Assumptions C05_rewrite_only_configured_names.
+
 (** Non-vacuity: a sum and a method call under a configuration that renames both. *)
 Example C05_names_example :
   let c := {| c_prefix := "t"%string; c_methods := [{| m_src := "plusOperator"%string; m_dst := "add"%string; m_operator := true; m_awc := false |};
